@@ -1,4 +1,5 @@
 import XvcPipeData.Schema
+import XvcPipeData.ExportOrder
 /-!
   Helper lemmas for the export/import model (`Schema.lean`).  The property theorems are in
   `Props/C14.lean`.
@@ -92,6 +93,41 @@ theorem sortVals_of_sorted {α : Type} [TotalOrd α] {l : List α}
 
 theorem sortVals_idem {α : Type} [TotalOrd α] (l : List α) : sortVals (sortVals l) = sortVals l :=
   sortVals_of_sorted (sortVals_sorted l)
+
+/-! ## sorting by a key (`sorted_by_key`, `sorted_by_cached_key`) -/
+
+theorem keyLe_trans {α κ : Type} [TotalOrd κ] (key : α → κ) (a b c : α) :
+    keyLe key a b = true → keyLe key b c = true → keyLe key a c = true :=
+  TotalOrd.trans (key a) (key b) (key c)
+
+theorem keyLe_total {α κ : Type} [TotalOrd κ] (key : α → κ) (a b : α) :
+    (keyLe key a b || keyLe key b a) = true :=
+  TotalOrd.total (key a) (key b)
+
+theorem TotalOrd.le_refl {κ : Type} [TotalOrd κ] (k : κ) : TotalOrd.le k k = true := by
+  have := TotalOrd.total k k
+  simpa using this
+
+/-- A key that is injective on the elements of the collection makes the key sort canonical. -/
+theorem sortByKey_perm_of_injOn {α κ : Type} [TotalOrd κ] (key : α → κ) {l l' : List α}
+    (hinj : ∀ a, a ∈ l → ∀ b, b ∈ l → key a = key b → a = b) (hp : l.Perm l') :
+    sortByKey key l = sortByKey key l' := by
+  unfold sortByKey
+  apply List.Perm.eq_of_pairwise (le := fun a b => keyLe key a b = true)
+  · intro a b ha hb h1 h2
+    have ha' : a ∈ l := (List.mergeSort_perm l _).subset ha
+    have hb' : b ∈ l := hp.symm.subset ((List.mergeSort_perm l' _).subset hb)
+    exact hinj a ha' b hb' (TotalOrd.antisymm _ _ h1 h2)
+  · exact List.pairwise_mergeSort (keyLe_trans key) (keyLe_total key) l
+  · exact List.pairwise_mergeSort (keyLe_trans key) (keyLe_total key) l'
+  · exact (List.mergeSort_perm l _).trans (hp.trans (List.mergeSort_perm l' _).symm)
+
+/-- Stability: two elements with equal keys stay in the order they arrived in. -/
+theorem sortByKey_pair_of_key_eq {α κ : Type} [TotalOrd κ] (key : α → κ) (a b : α) (hk : key a = key b) :
+    sortByKey key [a, b] = [a, b] := by
+  unfold sortByKey
+  apply List.mergeSort_of_pairwise
+  simp [keyLe, hk, TotalOrd.le_refl]
 
 /-! ## `allSome` -/
 
